@@ -370,6 +370,18 @@ func (p *specParser) parsePrimary() *SExpr {
 			p.fail("bad string literal %s", p.src[s:p.pos])
 		}
 		return &SExpr{Op: "str", Str: v}
+	case c == '`':
+		s := p.pos + 1
+		p.pos++
+		for p.pos < len(p.src) && p.src[p.pos] != '`' {
+			p.pos++
+		}
+		if p.pos >= len(p.src) {
+			p.fail("unterminated raw string")
+		}
+		v := p.src[s:p.pos]
+		p.pos++
+		return &SExpr{Op: "str", Str: v}
 	case c == '\'':
 		s := p.pos
 		p.pos++
